@@ -33,9 +33,9 @@ class RequestChannelRequester(RequestChannelCommon, Requester):
         )
 
     def subscribe(self, subscriber: Subscriber):
+        self._send_channel_request(self._payload)  # before any subscription: nothing may precede the request frame
         self.setup()
         super().subscribe(subscriber)
-        self._send_channel_request(self._payload)
 
         if self._publisher is None:
             self.mark_completed_and_finish(sent=True)
